@@ -327,6 +327,10 @@ def rule_aggregation(ctx):
                    f"`{norm(st, 70)}` stores per-element values at a non-unique bus index: elements sharing a bus overwrite each other", fi.loc(st))
     rule_shortcut_guard(ctx)
     rule_zip_sibling(ctx)
+    # the balance at the bus of a participating xward: the share written to res_xward is the solved bus demand minus the constant demand
+    # of the in-service elements at that bus, with the sign table of the aggregation (shared with C10)
+    from rules import C10
+    C10.rule_xward(ctx)
     R5 = "IS-FACTOR"
     ctx.rule(R5, "every term that _calc_shunts_and_add_on_ppc adds to the shunt accumulators inside an element block is multiplied by "
                  "that element's in-service mask (the result side writes zero for out-of-service elements)")
@@ -406,6 +410,7 @@ def variants(repo):
         Variant("recycled dc run keeps the old branch injection", "pandapower/pf/run_dc_pf.py", replace_once("            ppci['internal']['Pfinj'] = Pfinj\n    else:", "    else:"), "DC-CACHE"),
         Variant("recycled dc run forgets the compared shift", "pandapower/pf/run_dc_pf.py", replace_once("            ppci['internal']['shift'] = branch[:, SHIFT]\n            ppci['internal']['Pbusinj'] = Pbusinj\n            ppci['internal']['Pfinj'] = Pfinj\n", "            ppci['internal'].update(Pbusinj=Pbusinj, Pfinj=Pfinj)\n"), "DC-CACHE"),
         Variant("twin: cache refreshed through update()", "pandapower/pf/run_dc_pf.py", replace_once("            ppci['internal']['shift'] = branch[:, SHIFT]\n            ppci['internal']['Pbusinj'] = Pbusinj\n            ppci['internal']['Pfinj'] = Pfinj\n", "            ppci['internal'].update(shift=branch[:, SHIFT], Pbusinj=Pbusinj, Pfinj=Pfinj)\n"), None),
+        Variant("storage counted as generation in the xward share", rb, replace_once('p_bus -= p_elm.sum() * (-1 if e == "sgen" else 1)', 'p_bus -= p_elm.sum() * (-1 if e in ("sgen", "storage") else 1)'), "SW-XWARD"),
         Variant("table shunt without in-service mask", bb, replace_once('q = q + s["q_mvar_table"].fillna(0).to_numpy() * v_ratio * vl', 'q = q + s["q_mvar_table"].fillna(0).to_numpy() * v_ratio'), "IS-FACTOR"),
         Variant("ward admittance without in-service mask", bb, replace_once('p = np.hstack([p, w["pz_mw"].values * base_multiplier * vl])', 'p = np.hstack([p, w["pz_mw"].values * base_multiplier])'), "IS-FACTOR"),
         Variant("ac slack split by all gens at the bus", "pandapower/pypower/pfsoln.py",
